@@ -32,9 +32,10 @@ def resolve_anchors(F, X, rep=None, rid="anchors"):
     A.drain_fns = sorted(g)
     g = _groups_with(F, lambda c: c.name == "std::vec::Vec::push" and ONESHOT_SENDER in c.full)
     A.add_listener_fns = sorted(g)
-    g = _groups_with(F, lambda c: c.name == "tokio::sync::mpsc::Sender::send" and "Sender::<messages::HtlcAcceptedResponse>" in c.full)
+    SENDS = ("tokio::sync::mpsc::Sender::send", "tokio::sync::mpsc::Sender::try_send", "tokio::sync::mpsc::Sender::send_timeout", "tokio::sync::mpsc::Sender::blocking_send")
+    g = _groups_with(F, lambda c: c.name in SENDS and "Sender::<messages::HtlcAcceptedResponse>" in c.full)
     A.fail_requester_fns = sorted(g)
-    g = _groups_with(F, lambda c: c.name == "tokio::sync::mpsc::Sender::send" and "Sender::<()>" in c.full)
+    g = _groups_with(F, lambda c: c.name in SENDS and "Sender::<()>" in c.full)
     A.ready_sender_fns = sorted(g)
     g = _groups_with(F, lambda c: c.name == "tokio::sync::oneshot::Sender::send" and "HtlcAcceptedResponse" in c.full)
     A.answer_fns = sorted(g)
